@@ -190,7 +190,7 @@ static void noisy(int t, int bb, int n_in, int n_out, double alpha, int Ksamples
     VH_OP("lweCreateKeySwitchKey:n_in=%d:n_out=%d", n_in, n_out);
     lweCreateKeySwitchKey(ks, kin, kout);
     // exact noise of every row (harness arithmetic)
-    double pred_var = 0, pred_mean = 0, maxsum = 0; int w = 0;
+    double pred_var = 0, pred_mean = 0, maxsum = 0; int w = 0; bool row_reported = false;
     for (int i = 0; i < n_in; i++) {
         w += kin->key[i];
         for (int j = 0; j < t; j++) {
@@ -199,13 +199,19 @@ static void noisy(int t, int bb, int n_in, int n_out, double alpha, int Ksamples
                 U msg = (U) kin->key[i] * (U) h * ((U) 1 << (32 - (j + 1) * bb));
                 double e = (double) (int32_t) (ref_lwe_phase(&ks->ks[i][j][h], kout->key, n_out) - msg);
                 s1 += e; s2 += e * e; if (fabs(e) > mx) mx = fabs(e);
+                // a generator asked for noise far below the torus resolution makes rows that carry exactly their message (the
+                // recentring of lweCreateKeySwitchKey subtracts the mean of zeros): "the noise of the rows" is then zero
+                if (alpha * 4294967296.0 < 1.0 / 256 && e != 0 && !row_reported) {
+                    row_reported = true;
+                    out.viol("ks-key:noiseless-row-does-not-carry-its-message:" + lay(t, bb), J().i("t", t).i("basebit", bb).i("i", i).i("level", j).i("digit", h).i("key_bit", kin->key[i]).d("row_phase_minus_message_units", e).d("alpha", alpha));
+                }
             }
             double m = s1 / base; // digit h uniform over base values, h = 0 contributes no row
             pred_mean -= m; pred_var += s2 / base - m * m; maxsum += mx;
         }
     }
     double unit = ldexp(1.0, 32 - tb);
-    pred_var += w * unit * unit / 12.0; pred_mean += -0.5 * w; // rounding: uniform on [-unit/2, unit/2), mean -1/2 unit of 2^-32
+    pred_var += w * (unit * unit - 1) / 12.0; pred_mean += -0.5 * w; // rounding: uniform on the integers of [-unit/2, unit/2), mean -1/2 unit of 2^-32
     GuardedLwe gin(Pin), gout(Pout);
     double s1 = 0, s2 = 0, mx = 0;
     VH_OP("lweKeySwitch:noisy:n_in=%d:n_out=%d:t=%d:basebit=%d", n_in, n_out, t, bb);
@@ -223,14 +229,14 @@ static void noisy(int t, int bb, int n_in, int n_out, double alpha, int Ksamples
             out.viol("ks-noisy:hard-bound:" + lay(t, bb), J().i("t", t).i("basebit", bb).i("n_in", n_in).i("n_out", n_out).d("err_units", e).d("bound_units", hard));
     }
     double mean = s1 / Ksamples, var = s2 / Ksamples - mean * mean;
-    double se_mean = sqrt(pred_var / Ksamples), rel = var / pred_var - 1, se_rel = sqrt(2.0 / Ksamples) * 1.5; // kurtosis allowance (sum of bounded + gaussian terms)
+    double se_mean = sqrt(pred_var / Ksamples), rel = pred_var > 0 ? var / pred_var - 1 : (var > 0 ? 1e9 : 0), se_rel = sqrt(2.0 / Ksamples) * 1.5; // kurtosis allowance (sum of bounded + gaussian terms)
     bool ok_mean = fabs(mean - pred_mean) <= 8 * se_mean + 2;
     bool ok_var = fabs(rel) <= 8 * se_rel;
     // analytic expectation from the property: (rows used) alpha^2 + (key weight) 2^(-2tb)/12
     // For ONE key the per-(i,j) digit means do not vanish (only their total does, by the recentring), so the variance over
     // samples is E[sum_ij Var_h(noise_ijh)] = n t (1-1/base)^2 alpha^2, not n t (1-1/base) alpha^2.
-    double analytic = (double) n_in * t * (1.0 - 1.0 / base) * (1.0 - 1.0 / base) * pow(alpha * 4294967296.0, 2) + w * unit * unit / 12.0;
-    double rel_an = var / analytic - 1;
+    double analytic = (double) n_in * t * (1.0 - 1.0 / base) * (1.0 - 1.0 / base) * pow(alpha * 4294967296.0, 2) + w * (unit * unit - 1) / 12.0;
+    double rel_an = analytic > 0 ? var / analytic - 1 : (var > 0 ? 1e9 : 0);
     double se_key = sqrt(2.0 / (n_in * t * (base - 1.0)));  // fluctuation of the realised key rows around alpha^2
     bool ok_an = fabs(rel_an) <= 8 * sqrt(se_rel * se_rel + se_key * se_key) + 0.02;
     out.stat(J().s("kind", "noisy").i("t", t).i("basebit", bb).i("n_in", n_in).i("n_out", n_out).d("alpha", alpha).i("K", Ksamples)
